@@ -95,7 +95,8 @@ theorem q0_eq (nxL nxR k : Int) (sp : Nat) (hs : 0 < sp) :
 /-! ### the zncc plane -/
 
 theorem rawZncc_eq (x : Input) (h : Shape x) (hm : x.meas = .zncc) (k r c : Int)
-    (hntL : NoTiny x x.L.px r c) (hntR : NoTiny x (fun a b => interpR x.R x.sp k a b) r c) :
+    (hntL : LeftInside x r c → NoTiny x x.L.px r c)
+    (hntR : LeftInside x r c → NoTiny x (fun a b => interpR x.R x.sp k a b) r c) :
     rawZncc x k r c = if LeftInside x r c ∧ RightInside x c k then valueSpec x r c k else .nan := by
   have hw := window_eq x h
   have hs := h.sp_pos
@@ -123,6 +124,8 @@ theorem rawZncc_eq (x : Input) (h : Shape x) (hm : x.meas = .zncc) (k r c : Int)
     omega
   by_cases hin : LeftInside x r c ∧ RightInside x c k
   · rw [if_pos (hguard.mpr hin), if_pos hin]
+    have hntL := hntL hin.1
+    have hntR := hntR hin.1
     obtain ⟨⟨hl1, hl2, hl3, hl4⟩, hr1, hr2⟩ := hin
     simp only [← ho, ← hD] at hl1 hl2 hl3 hl4 hr1 hr2
     set p0 := (pointInterval (x.L.cols : Int) (Rk.cols : Int) k x.sp).p0 with hp0
